@@ -12,6 +12,9 @@ desc = {
   "der":  [(n, fid, [args])],                                   declaration order
   "rxn":  [(n, fid, [args], [(cpd, ("num", q) | ("fun", fid, [args]))])],
   "ro":   [(n, fid, [args])],
+  "surr": [(n, "mock" | "qss", [args], [(out, fid)], [(flux_out, [(cpd, ("num", q) | ("fun", fid, [args]))])])],
+          optional; every output out_j = table[fid_j](*args); an output listed as flux_out is a FLUX of
+          the surrogate (it has a stoichiometry and appears as a reaction name in the cache tables)
   "kind": str,
 }
 """
@@ -39,6 +42,7 @@ KINDS = [
     "plain", "plain", "plain", "plain", "shuffled", "shuffled", "shuffled", "shuffled",
     "ia_par_unref", "ia_par_unref", "ia_par_ref", "ia_var", "time", "dyn", "statcoef", "novarrxn",
     "rate_dep", "untranslatable", "data", "readout", "nopars",
+    "surr_rxn", "surr_rxn", "surr_der", "surr_flux", "surr_coef", "surr_unused",
 ]
 
 
@@ -171,6 +175,49 @@ def gen_desc(rng, kind: str | None = None, *, poly_only: bool = True) -> dict:
             r[1], r[2] = c12_fns.UNTRANSLATABLE, [rng.choice(rpool)]
     if kind == "data":
         desc["data"].append(fresh())
+    if kind.startswith("surr_"):
+        # one or two surrogates; their arguments are variables / parameters / derived values
+        desc["surr"] = []
+        outs_all: list[int] = []
+        for _ in range(rng.choice([1, 1, 2])):
+            sn = fresh()
+            ar = rng.choice([1, 2])
+            sargs = [rng.choice(all_vars if rng.random() < 0.7 else dpool) for _ in range(ar)]
+            n_out = rng.choice([1, 1, 2])
+            outs = [(fresh(), rng.choice(by_ar[ar])) for _ in range(n_out)]
+            desc["surr"].append([sn, rng.choice(["mock", "qss"]), sargs, outs, []])
+            outs_all += [o for o, _ in outs]
+        s0 = desc["surr"][0]
+        o0 = s0[3][0][0]
+        if kind == "surr_rxn":
+            # a surrogate OUTPUT is an argument of an ordinary reaction
+            r = rng.choice(rxns)
+            if r[2]:
+                r[2][rng.randrange(len(r[2]))] = o0
+            else:
+                r[1], r[2] = by_ar[1][0], [o0]
+        elif kind == "surr_der":
+            # ... of a derived value (which a reaction may or may not use)
+            n = fresh()
+            ders.append((n, by_ar[1][0], [o0]))
+            if rng.random() < 0.6:
+                r = rng.choice(rxns)
+                if r[2]:
+                    r[2][rng.randrange(len(r[2]))] = n
+        elif kind == "surr_coef":
+            # ... of a computed stoichiometric coefficient
+            r = rng.choice(rxns)
+            i = rng.randrange(len(r[3]))
+            r[3][i] = (r[3][i][0], ("fun", by_ar[1][0], [o0]))
+        elif kind == "surr_flux":
+            # the surrogate only contributes FLUXES (outputs with stoichiometries)
+            for sdesc in desc["surr"]:
+                for o, _ in sdesc[3][: rng.choice([1, len(sdesc[3])])]:
+                    cpds = rng.sample(all_vars, rng.randint(1, min(2, len(all_vars))))
+                    sdesc[4].append((o, [(c, ("num", rng.choice(COEFS))) for c in cpds]))
+        # surr_unused: nothing names an output (a readout may)
+        if kind == "surr_unused" and rng.random() < 0.5:
+            desc["ro"].append((fresh(), by_ar[1][0], [o0]))
     if kind == "readout" or rng.random() < 0.1:
         fid, args = pick(from_pool=rpool)
         desc["ro"].append((fresh(), fid, args))
@@ -218,6 +265,10 @@ def expected_convertible(desc: dict) -> bool:
     varsn = {n for n, _ in desc["vars"]}
     dern = {d[0] for d in desc["der"]}
     okn = plain_pars | varsn | dern
+    # a surrogate that contributes a flux has no symbolic form: the model is not convertible; a
+    # surrogate output is not a name the conversion knows (not in okn), so naming one is caught below
+    if any(s[4] for s in desc.get("surr", [])):
+        return False
     for _, fid, args in desc["der"]:
         if fid == c12_fns.UNTRANSLATABLE or any(a not in okn for a in args):
             return False
@@ -255,6 +306,43 @@ def _param_only(desc, args, plain_pars) -> bool:
     return all(po(a) for a in args)
 
 
+def surrogate_outputs(desc: dict) -> set[int]:
+    return {o for s in desc.get("surr", []) for o, _ in s[3]}
+
+
+def uses_surrogate(desc: dict) -> bool:
+    """Independent rule: does the right-hand side depend on a surrogate -- a surrogate flux, or an
+    output named (directly or through derived values) by a rate or a computed coefficient?  Such a
+    model has no symbolic form: the conversion has to raise and the simulator has to fall back.
+    (A derived value that names an output but feeds no rate does not make the right-hand side depend
+    on the surrogate: refusing or converting such a model are both fine.)"""
+    outs = surrogate_outputs(desc)
+    if not outs:
+        return False
+    if any(s[4] for s in desc["surr"]):
+        return True
+    der = {d[0]: d[2] for d in desc["der"]}
+    seen: set[int] = set()
+
+    def dep(a) -> bool:
+        if a in outs:
+            return True
+        if a in der and a not in seen:
+            seen.add(a)
+            return any(dep(b) for b in der[a])
+        return False
+
+    for _, _, args, st in desc["rxn"]:
+        seen.clear()
+        if any(dep(a) for a in args):
+            return True
+        for _, coef in st:
+            seen.clear()
+            if coef[0] == "fun" and any(dep(a) for a in coef[2]):
+                return True
+    return False
+
+
 def has_static_computed_coefficient(desc: dict) -> bool:
     plain_pars = {n for n, v in desc["pars"] if v[0] == "plain"}
     return any(coef[0] == "fun" and _param_only(desc, coef[2], plain_pars) for r in desc["rxn"] for _, coef in r[3])
@@ -290,6 +378,25 @@ def build(desc: dict, par_override: dict[int, Any] | None = None):
         m.add_reaction(nm(n), fn=tab[fid][0], args=[nm(a) for a in args], stoichiometry=sto)
     for n, fid, args in desc["ro"]:
         m.add_readout(nm(n), fn=tab[fid][0], args=[nm(a) for a in args])
+    for n, flavour, sargs, outs, fluxes in desc.get("surr", []):
+        fs = [tab[fid][0] for _, fid in outs]
+
+        def predict(*a, _fs=fs):
+            return tuple(f(*a) for f in _fs)
+
+        sto = {
+            nm(o): {nm(c): (float(coef[1]) if coef[0] == "num" else Derived(fn=tab[coef[1]][0], args=[nm(a) for a in coef[2]])) for c, coef in st}
+            for o, st in fluxes
+        }
+        kw = {"args": [nm(a) for a in sargs], "outputs": [nm(o) for o, _ in outs], "stoichiometries": sto}
+        if flavour == "qss":
+            from mxlpy.surrogates import qss
+
+            m.add_surrogate(nm(n), qss.Surrogate(model=predict, **kw))
+        else:
+            from mxlpy.surrogates.abstract import MockSurrogate
+
+            m.add_surrogate(nm(n), MockSurrogate(fn=predict, **kw))
     return m
 
 
@@ -327,6 +434,25 @@ def read_inputs(m) -> dict:
     def comp(c):
         return (fid_of[id(c.fn)], [un(a) for a in c.args])
 
+    def stoich_of(sto):
+        return [(un(c), ("fun", comp(f)) if hasattr(f, "fn") else ("num", to_fraction(f))) for c, f in sto.items()]
+
+    # surrogates: names read from the model; the per-output function ids are recovered from the predict
+    # closure the builder made (the model itself only knows `predict`); that each output really has this
+    # value is checked inside Coq against Model.get_args (FnTab.surr_ok)
+    surr = []
+    surr_raw = []
+    for k, sg in m._surrogates.items():  # noqa: SLF001
+        fn = getattr(sg, "fn", None) or getattr(sg, "model", None)
+        fs = (getattr(fn, "__kwdefaults__", None) or {}).get("_fs", [])
+        if len(fs) != len(sg.outputs):
+            raise InputAssumptionBroken("surrogate outputs do not match the builder's function list")
+        surr.append((un(k), [un(a) for a in sg.args], [(un(o), fid_of[id(f)]) for o, f in zip(sg.outputs, fs, strict=True)]))
+        # second loop of Model._create_cache: the surrogates' stoichiometries, after the reactions'
+        surr_raw += [(un(r), stoich_of(sto)) for r, sto in sg.stoichiometries.items()]
+    if m.get_surrogate_output_names(include_fluxes=True) != [nm(o) for _, _, outs in surr for o, _ in outs]:
+        raise InputAssumptionBroken("get_surrogate_output_names(include_fluxes=True) is not the outputs in declaration order")
+
     return {
         "vars": [un(v) for v in vars_],
         "pars": pars,
@@ -337,10 +463,8 @@ def read_inputs(m) -> dict:
         "stoich": [(un(c), [(un(r), to_fraction(n)) for r, n in st.items()]) for c, st in cache.stoich_by_cpds.items()],
         "dyn": [(un(c), [(un(r), comp(d)) for r, d in st.items()]) for c, st in cache.dyn_stoich_by_cpds.items()],
         # the model's own stoichiometries and what Model._create_cache classifies / evaluates them with
-        "raw": [
-            (un(k), [(un(c), ("fun", comp(f)) if hasattr(f, "fn") else ("num", to_fraction(f))) for c, f in r.stoichiometry.items()])
-            for k, r in m._reactions.items()  # noqa: SLF001
-        ],
+        "raw": [(un(k), stoich_of(r.stoichiometry)) for k, r in m._reactions.items()] + surr_raw,  # noqa: SLF001
+        "surr": surr,
         "parnames": [un(k) for k in cache.all_parameter_values],
         "pv": [(un(k), to_fraction(v)) for k, v in cache.all_parameter_values.items()],
     }
@@ -361,9 +485,12 @@ def c_model(inp: dict) -> str:
     rxn = clist(f"({cn(n)}, {c_comp(c)})" for n, c in inp["rxn"])
     sto = clist(f"({cn(c)}, {clist(f'({cn(r)}, {cq(q)})' for r, q in st)})" for c, st in inp["stoich"])
     dyn = clist(f"({cn(c)}, {clist(f'({cn(r)}, {c_comp(d)})' for r, d in st)})" for c, st in inp["dyn"])
+    surr = clist(
+        f"({cn(n)}, mkSurr {clist(map(cn, args))} {clist(f'({cn(o)}, {cn(f)})' for o, f in outs)})" for n, args, outs in inp.get("surr", [])
+    )
     return (
         f"(mkSM {clist(map(cn, inp['vars']))} {pars} {clist(map(cn, inp['data']))}\n      {der}\n      {rxn}\n"
-        f"      {clist(map(cn, inp['order']))}\n      {sto}\n      {dyn})"
+        f"      {clist(map(cn, inp['order']))}\n      {sto}\n      {dyn}\n      {surr})"
     )
 
 
